@@ -12,7 +12,8 @@ Inductive item :=
 | IBlocked (t : tid)       (* thread t was released but made no progress: it must be disabled in the model *)
 | IObs (octls : list (N * N)) (onames : list (N * N)) (obound : list N) (oouts : list out).
 
-Definition case := list item.
+(* a case: serverCfg.MaxPortsPerClient of the run, then what happened *)
+Definition case := (Z * list item)%type.
 
 (* ---- gates: the pcs at which a thread of the implementation sits in verifhook.At ---- *)
 Definition at_gate (st : state) (t : tid) : bool :=
@@ -24,7 +25,7 @@ Definition at_gate (st : state) (t : tid) : bool :=
                | Some x => match s_dpc x with DDel => true | _ => false end
                | None => false end
   | TSess s => match alookup s (sessions st) with
-               | Some x => match s_spc x with SRun _ _ _ | SAddP _ _ | TLoop _ => true | _ => false end
+               | Some x => match s_spc x with SRun _ _ _ _ | SAddP _ _ | TLoop _ => true | _ => false end
                | None => false end
   end.
 
@@ -135,7 +136,8 @@ Definition big_fuel : nat := (100 * 100)%nat.
 (* reason codes: 1 action not enabled | 2 released thread cannot step | 3 out of fuel |
    4 blocked thread is enabled in the model | 11 session table | 12 name table |
    13 set of running proxies | 14 messages delivered to the peers *)
-Fixpoint check_items (l : case) (st : state) (pend : list out) : Z :=
+(* NewProxyResp class 5 = refused by the per-client port quota *)
+Fixpoint check_items (l : list item) (st : state) (pend : list out) : Z :=
   match l with
   | [] => 0%Z
   | IAct a :: r =>
@@ -170,7 +172,7 @@ Fixpoint check_items (l : case) (st : state) (pend : list out) : Z :=
       else check_items r st []
   end.
 
-Definition check_case (c : case) : Z := check_items c init [].
+Definition check_case (c : case) : Z := check_items (snd c) (init_with (fst c)) [].
 
 (* ---- the property as a monitor on what was observed (no model involved) ----
    names are unique in every snapshot, a run id designates one session, and the proxies that
@@ -185,10 +187,11 @@ Definition obs_ok (i : item) : bool :=
   | IObs oc on ob _ => nodup_keys oc && nodup_keys on
   | _ => true
   end.
-Definition C12_holds (c : case) : bool := forallb obs_ok c.
+Definition C12_holds (c : case) : bool := forallb obs_ok (snd c).
 
 (* counters for the evidence: which model branches the cases reached *)
-Definition has_item (p : item -> bool) (c : case) : bool := existsb p c.
+Definition has_item (p : item -> bool) (c : case) : bool := existsb p (snd c).
+Definition has_quota (c : case) : bool := (0 <? fst c)%Z.
 Definition is_relogin (i : item) : bool := match i with IAct (ALogin (Some _) _) => true | _ => false end.
 Definition is_gated (i : item) : bool := match i with IRun _ | IBlocked _ => true | _ => false end.
 Definition is_blocked (i : item) : bool := match i with IBlocked _ => true | _ => false end.
